@@ -6,6 +6,7 @@ import Driver.GConfig
 import Driver.GSort
 import Driver.EnvTmpl
 import Driver.Gencommon
+import Driver.GenGuards
 /-! Line-protocol driver: one request per line on stdin, one answer per line on stdout.
 Core-only so that it links as a native executable. -/
 open Drv
@@ -21,6 +22,7 @@ structure DState where
 def step (st : DState) (line : String) : DState × String :=
   match words line with
   | "bs" :: rest => (st, BitSet.handle rest)
+  | "gg" :: rest => (st, Drv.GG.handle rest)
   | "set" :: rest => let r := Drv.Set.handle st.set rest; ({ st with set := r.1 }, r.2)
   | "gc" :: rest => let r := Drv.GConfig.handle st.gc rest; ({ st with gc := r.1 }, r.2)
   | "gcm" :: rest => let r := Drv.GC.handle st.gcm rest; ({ st with gcm := r.1 }, r.2)
